@@ -157,7 +157,10 @@ macro_rules! do_text_token_tok {
         do_each!($i,
            span => input!(),
            frag => text_token!($text_token),
-           _ => either!(whitespace, comment),
+           // The keyword must be followed by whitespace or a comment, but
+           // neither is part of it: a comment glued to the keyword is still
+           // a comment token for the comment map.
+           _ => peek!(either!(whitespace, comment)),
            (Token {
                typ: $type,
                pos: Position::from(&span),
